@@ -215,6 +215,11 @@ func nativeReplay(s *Suite, spec *HarnessSpec, v *Violation) (bool, string, erro
 	_ = t0
 	o := string(out)
 	switch v.Kind {
+	case "pass":
+		// a completed symbolic path must also complete natively
+		ok := strings.Contains(o, "\nok ") || strings.HasPrefix(o, "ok ")
+		bad := strings.Contains(o, "VP-ASSERT-FAIL") || strings.Contains(o, "VP-TAPE-MISMATCH") || strings.Contains(o, "panic:") || strings.Contains(o, "VP-ASSUME-FALSE")
+		return ok && !bad, o, nil
 	case "assert":
 		return strings.Contains(o, "VP-ASSERT-FAIL "+v.ID), o, nil
 	case "panic":
